@@ -1,12 +1,14 @@
 #!/usr/bin/env python3
-"""Regenerates MANIFEST.json from checks.json (claimed properties) + properties.jsonl (the rest go
-under not_applicable with the reason recorded in checks.json["_unclaimed"])."""
+"""Regenerates MANIFEST.json from checks/*.json (claimed properties) + properties.jsonl (the rest go
+under not_applicable with the reason recorded in checks/_global.json)."""
 import json, os, subprocess
 ROOT = os.path.dirname(os.path.dirname(os.path.abspath(__file__)))
-checks = json.load(open(os.path.join(ROOT, "checks.json")))
+checks = {f[:-5]: json.load(open(os.path.join(ROOT, "checks", f)))
+          for f in sorted(os.listdir(os.path.join(ROOT, "checks"))) if f.endswith(".json") and not f.startswith("_")}
+glob = json.load(open(os.path.join(ROOT, "checks", "_global.json")))
 props = [json.loads(l) for l in open(os.path.join(ROOT, "properties.jsonl"))]
-unclaimed = checks.get("_unclaimed", {})
-hooks_commits = checks.get("_hook_commits", [])
+unclaimed = glob.get("unclaimed", {})
+hooks_commits = glob.get("hook_commits", [])
 m = {
  "version": 1,
  "setup_cmd": "bin/setup",
